@@ -307,9 +307,6 @@ class StreamHeader(RecHeader):
     def get_dmdelays(self, dm, *a, **k):
         return self.delays
 
-    @property
-    def ftop(self):
-        return self.fch1 - 0.5 * self.foff
 
 
 BASE_STUBS = ["np.zeros/empty -> functional arrays (np.empty = fresh uninterpreted garbage)", "kernels.* -> contracts (established from the numba IR, see kernel_contracts in the evidence)",
@@ -333,6 +330,9 @@ def build_stream(R=None):
                 int=s_int, min=s_min, max=s_max, FilterbankBlock=RecBlock, FileReader=st["FileReader"])
     RF = rebind_class(readers.FilReader, rsub, bases=(RFB,), name="RFilReader")
     StreamHeader.prep_outfile = rebind(header.Header.prep_outfile, FileWriter=st["FileWriter"], sigproc=SigprocStub)
+    # band geometry: the real Header properties (their bytecode runs on the stand-in's fch1 / foff / nchans)
+    for nm in ("bandwidth", "ftop", "fbottom", "fcenter", "chan_freqs", "fmax", "fmin"):
+        setattr(StreamHeader, nm, property(getattr(header.Header, nm).fget))
     if R is not None:
         R.encode(readers.FilReader.read_plan, header.Header.prep_outfile)
         R.stub(*READER_STUBS)
